@@ -42,6 +42,8 @@ Definition k_operand_values : str := [111; 112; 101; 114; 97; 110; 100; 95; 118;
 Definition k_indirect_register : str := [105; 110; 100; 105; 114; 101; 99; 116; 95; 114; 101; 103; 105; 115; 116; 101; 114].
 Definition k_indexed_register : str := [105; 110; 100; 101; 120; 101; 100; 95; 114; 101; 103; 105; 115; 116; 101; 114].
 Definition k_indirect_indexed_register : str := [105; 110; 100; 105; 114; 101; 99; 116; 95; 105; 110; 100; 101; 120; 101; 100; 95; 114; 101; 103; 105; 115; 116; 101; 114].
+Definition k_relative_address : str := [114; 101; 108; 97; 116; 105; 118; 101; 95; 97; 100; 100; 114; 101; 115; 115].
+Definition k_argument : str := [97; 114; 103; 117; 109; 101; 110; 116].
 Definition k_numeric_bytecode : str := [110; 117; 109; 101; 114; 105; 99; 95; 98; 121; 116; 101; 99; 111; 100; 101].
 
 Fixpoint yassoc (m : list (str * yv)) (k : str) : option yv :=
@@ -133,6 +135,15 @@ Definition abstract_doc (doc : yv) : vcfg :=
                                       then match yget oc k_bytecode with
                                            | Some bc => [(match yget bc k_min with Some x => yint x 0 | None => 0 end,
                                                           match yget bc k_max with Some x => yint x 0 | None => 0 end)]
+                                           | None => []
+                                           end
+                                      else if str_eqb (type_of oc) k_relative_address
+                                      (* a relative address: checked only when both bounds are configured (D48) *)
+                                      then match yget oc k_argument with
+                                           | Some a => match yget a k_min, yget a k_max with
+                                                       | Some (YInt lo), Some (YInt hi) => [(lo, hi)]
+                                                       | _, _ => []
+                                                       end
                                            | None => []
                                            end
                                       else []) (all_opcfgs doc);
